@@ -12,4 +12,6 @@ if [ ! -x "$VERIF_STATE/goroot/bin/go" ]; then
   mv "$VERIF_STATE/goroot.tmp" "$VERIF_STATE/goroot"
 fi
 (cd sim && go build -o "$VERIF_STATE/verifsim" ./cmd/verifsim)
+# Build garble-sim from /repo and the quick-tier std templates once, so that no check pays for them.
+"$VERIF_STATE/verifsim" prewarm
 echo setup ok
